@@ -97,7 +97,12 @@ def run_variant(args):
         out['failing_rules_new'] = newrules
         out['failing_keys_new'] = new[:20]
         out['check_error'] = err
-        if variant['kind'] == 'violating':
+        if variant['kind'] == 'repair':
+            # a repaired form of a known finding: the finding's key must disappear and nothing new may appear
+            still = [k for k in variant.get('fixes', []) if k in keys]
+            out['status'] = 'silent' if not still and not newrules and not err else 'FALSE-ALARM'
+            out['failing_rules_new'] = newrules + ['still:' + k.split('|')[0] for k in still]
+        elif variant['kind'] == 'violating':
             exp = set(variant.get('expect', []))
             hit = bool(exp & set(newrules)) if exp else bool(newrules)
             out['status'] = 'fired' if hit else ('fired-other' if newrules or err else 'MISSED')
